@@ -117,7 +117,7 @@ def cases(draw):
     if pk != "none":
         labels.append("uri:" + pk)
     s = s.replace("?", "")
-    return {"s": s, "labels": labels}
+    return {"s": s, "labels": labels, "warm": draw(st.integers(0, 3)) == 0}
 
 
 def evaluate(case) -> Outcome:
@@ -126,6 +126,14 @@ def evaluate(case) -> Outcome:
     s = case["s"]
     out = Outcome(key=s, sample=s)
     out.labels = list(case.get("labels", []))
+    # "any string ... never fails ... first configured template": also right after Sid OBJECTS of the other
+    # templates accepting the same string were built and passed through Sid() (objects and strings must not be confused)
+    if case.get("warm") and ":" not in s:
+        for tt in list(m.types_all(s))[::-1][:3]:
+            okw, w = call(lambda: Sid(Sid(tt + ":" + s)))
+            if okw and w and w.type != tt:
+                out.add("C01/sid-of-sid-loses-forced-type", f"Sid(Sid({tt + ':' + s!r})) has type {w.type!r}")
+        out.label("warm-up")
     ok, sid = call(Sid, s)
     if not ok:
         out.add(f"C01/raises/{exc_sig(sid)}", f"Sid({s!r}) raised {sid!r}")
